@@ -374,6 +374,8 @@ def run(tier, replay=None):
     chk = Check('C03', tier, level='model_checking')
     chk.rule = 'one case per (conformant document, fault plan = segment x element x component x kind) enumerated by TLC over the exported map; each case is one validation run'
     q = tier == 'quick'
+    if not q:
+        wc.MEMO_MAPS = True       # thorough tier: each worker process loads every map once (reuse of map objects is C18's subject)
     rnd = random.Random(vlib.seed() + 3)
     files = wc.choose_maps(tier, rnd)
     gens = wc.gen_docs_many(files, cap=2, maxdepth=60 if q else 80, timeout=2400)
